@@ -116,6 +116,9 @@ inductive Stmt
   | foreach (x : Nat) (decl : Bool) (vals : List SVal) (body : List Stmt)
       -- WHILE [VAR] @x IN cur DO … END WHILE over a cursor that is open in front of its first row and whose
       -- remaining rows (one column) are `vals`; the cursor is not used again
+  | inline (ss : List Stmt)
+      -- SOURCE file / EXECUTE 'text' / EXECUTE prepared_statement whose statements are `ss`:
+      -- Processor.execute on the SAME processor, i.e. in the current block, the flow handed on
   | brk
   | cont
   | exit
@@ -386,6 +389,7 @@ def stmtI : Nat → Stmt → Option SVal → St → PRes
     -- childProc := proc.NewChildProcessor(); defer childProc.Close()
     let r := foreachI fuel x decl vals body rv none st.push
     { r with st := r.st.pop }
+  | fuel + 1, .inline ss, rv, st => executeI fuel ss rv st       -- flow, err = proc.execute(ctx, externalStatements)
   | _ + 1, .brk, rv, st => ⟨.brk, none, rv, st⟩
   | _ + 1, .cont, rv, st => ⟨.cont, none, rv, st⟩
   | _ + 1, .exit, rv, st => ⟨.exit, none, rv, st⟩
@@ -601,6 +605,7 @@ def stmtS : Nat → Stmt → St → Outcome × St
   | fuel + 1, .ifs branches els, st => ifS fuel branches els st
   | fuel + 1, .while c body, st => whileS fuel c body st
   | fuel + 1, .foreach x decl vals body, st => foreachS fuel x decl vals body st
+  | fuel + 1, .inline ss, st => blockS fuel ss st
   | _ + 1, .brk, st => (.brk, st)
   | _ + 1, .cont, st => (.cont, st)
   | _ + 1, .exit, st => (.exit, st)
